@@ -454,6 +454,66 @@ pub fn run(ctx: &Ctx) -> Result<(), String> {
             }
         });
     }
+    // observed behaviour: the share of deliberately invalid replies the server PRODUCES matches the
+    // written fault_percentage (0 -> none; 10 -> 2..30%; 25 -> 10..45%; 49/50 -> 29/30..69/70% of 600
+    // replies; the bands are > 9 sigma wide, so this is a dichotomy, not a rate estimate)
+    {
+        crate::inproc::init();
+        let lt_pk = rtref::crypto::public_key(&rtref::crypto::unhex(BASE_SEED_HEX).try_into().unwrap());
+        let plans: Vec<(u32, f64, f64)> = vec![(0, 0.0, 0.0), (10, 0.02, 0.30), (25, 0.10, 0.45), (49, 0.29, 0.69), (50, 0.30, 0.70)];
+        par_for(plans.len(), 1, |k, _| {
+            let (p, lo, hi) = plans[k];
+            let dir = crate::proc::scratch_dir();
+            let mut w = Written::base(8686);
+            w.set("fault_percentage", &p.to_string());
+            let path = dir.join("behaviour-fault.yaml");
+            let _ = std::fs::write(&path, w.yaml());
+            let r = (|| -> Result<(usize, usize), String> {
+                use std::os::unix::io::AsRawFd;
+                let cfg = roughenough::config::make_config(path.to_str().unwrap()).map_err(|e| format!("{:?}", e))?;
+                let std_sock = std::net::UdpSocket::bind("127.0.0.1:0").map_err(|e| e.to_string())?;
+                std_sock.set_nonblocking(true).unwrap();
+                crate::inproc::set_rcvbuf(std_sock.as_raw_fd(), 8 << 20);
+                let addr = std_sock.local_addr().unwrap();
+                let sock = mio::net::UdpSocket::from_socket(std_sock).map_err(|e| e.to_string())?;
+                let queue = std::sync::Arc::new(roughenough::stats::StatsQueue::new(4));
+                let mut server = crate::util::catch(|| roughenough::server::Server::new(cfg.as_ref(), sock, queue))?;
+                let mut events = mio::Events::with_capacity(1024);
+                let (mut total, mut invalid) = (0usize, 0usize);
+                for round in 0..20 {
+                    let clients: Vec<crate::inproc::Client> = (0..30).map(|_| crate::inproc::Client::new()).collect();
+                    let reqs: Vec<Vec<u8>> = (0..30).map(|i| rtref::responder::std_request(rtref::Version::Classic, &crate::inproc::nonce(0xfa_0000 + (round * 30 + i) as u64, 64))).collect();
+                    for (c, r) in clients.iter().zip(&reqs) {
+                        c.send(addr, r);
+                    }
+                    for _ in 0..6 {
+                        crate::util::catch(|| server.process_events(&mut events))?;
+                    }
+                    for (c, r) in clients.iter().zip(&reqs) {
+                        for (d, _) in c.drain() {
+                            total += 1;
+                            if rtref::verifier::authentic(&d, r, rtref::Version::Classic, Some(&lt_pk), rtref::verifier::SERVER_VIEW).is_err() {
+                                invalid += 1;
+                            }
+                        }
+                    }
+                }
+                Ok((total, invalid))
+            })();
+            let _ = std::fs::remove_dir_all(&dir);
+            behav_n.fetch_add(1, Relaxed);
+            match r {
+                Err(e) => ctx.violation("behaviour-probe-failed", "fault_percentage", "observed-behaviour", json!({"kind":"behaviour-fault","written_fault_percentage":p,"error":e})),
+                Ok((total, invalid)) => {
+                    let share = invalid as f64 / total.max(1) as f64;
+                    if total < 500 || share < lo || share > hi {
+                        ctx.violation("effective-differs-from-written", "fault_percentage", "observed-invalid-share", json!({"kind":"behaviour-fault","written_fault_percentage":p,"replies":total,"invalid":invalid,"share":share,"accepted_band":[lo, hi],
+                            "message":format!("fault_percentage {} is written; {} of {} replies were deliberately invalid", p, invalid, total)}));
+                    }
+                }
+            }
+        });
+    }
     // observed behaviour of status_interval with per-client statistics: the reporter persists a
     // statistics file every status_interval seconds while there is traffic — with 1 a file must
     // appear within 3.5 s, with 600 none may (both sources, real binary)
